@@ -18,6 +18,8 @@ WINDS = {
     'seg3': [[30, 200, 150], [20, 90, 60], [10, 0, 400]],   # given out of order, boundaries inside the range
     'q60': [[60, 135, None]],
     'quarter': [[5, -45, None]],
+    'calm_wind': [[0, 0, 100], [10, 90, None]],                       # a calm stretch is a segment too
+    'wind_calm_wind': [[10, 90, 50], [0, 45, 120], [15, 270, None]],
 }
 
 
